@@ -188,6 +188,10 @@ def rule_P_TABLE(ctx, scopes, floor_sites):
         ops = G.site_operands(sym, t) if ("| panic " not in key and "| diverges " not in key) else {}
         live = set("%s = %s" % (e, v) for e, v in sym.live_guards(bi))
         ok_ops = ops == ent["ops"]
+        if not ok_ops and ent.get("ignore_alt_guards"):
+            # reviewed: every alternative of the multi-definition operand is safe on its own, so the branch conditions that select them
+            # (spelled differently by `match` / `if` / `is_none()`) are not part of the reference
+            ok_ops = strip_alt_guards(ops) == strip_alt_guards(ent["ops"])
         missing = [g for g in ent["need"] if g not in live]
         for bd in ent.get("bounds", []):
             if lower_bound(live, bd["expr"]) < bd["min"]:
@@ -206,6 +210,36 @@ def rule_P_TABLE(ctx, scopes, floor_sites):
         ext |= cg.ext.get(p, set())
     ctx.extra["external_callees_assumed_total"] = sorted(x for x in ext if x not in MAY_PANIC and not any(x.startswith(y) for y in PANIC_FNS))[:200]
     return reach
+
+
+def strip_alt_guards(x):
+    """drop the `[guard;guard]` annotations of φ alternatives (balanced brackets; `[<digits>]` constant indices are kept)"""
+    if isinstance(x, dict):
+        return {k: strip_alt_guards(v) for k, v in x.items()}
+    if isinstance(x, list):
+        return [strip_alt_guards(v) for v in x]
+    if not isinstance(x, str):
+        return x
+    out, i, n = [], 0, len(x)
+    while i < n:
+        if x[i] == "[":
+            j, depth = i, 0
+            while j < n:
+                if x[j] == "[":
+                    depth += 1
+                elif x[j] == "]":
+                    depth -= 1
+                    if depth == 0:
+                        break
+                j += 1
+            body = x[i + 1:j]
+            if body.isdigit():
+                out.append(x[i:j + 1])
+            i = j + 1
+            continue
+        out.append(x[i])
+        i += 1
+    return "".join(out)
 
 
 def lower_bound(live, expr):
